@@ -11,6 +11,24 @@ PY_EXC = {n: getattr(_pyb, n) for n in dir(_pyb)
 
 KLAM = z3.Int("k!lam")
 
+_OSERR_CODES = {}
+
+
+def oserror_codes(cls):
+    """errno values for which CPython instantiates OSError(errno, msg) as (a subclass of) `cls`;
+    table generated from the running interpreter"""
+    if cls not in _OSERR_CODES:
+        import errno as _errno
+        out = []
+        for code in sorted(_errno.errorcode):
+            try:
+                if issubclass(type(OSError(code, "x")), cls) and type(OSError(code, "x")) is not OSError:
+                    out.append(code)
+            except Exception:
+                pass
+        _OSERR_CODES[cls] = out
+    return _OSERR_CODES[cls]
+
 
 # ---------------------------------------------------------------- helpers on the AST
 def loop_ids(fnode):
